@@ -624,6 +624,9 @@ class OutProtocolBase(ProtocolMixin):
         retval = self.to_bytes(cls, value, **kwargs)
         if retval is None:
             return (b'',)
+        if isinstance(retval, six.text_type):
+            # some to_bytes handlers (e.g. Time) hand back text
+            retval = retval.encode(self.default_string_encoding or 'utf8')
         return (retval,)
 
     def complex_model_to_bytes_iterable(self, cls, value, **_):
